@@ -7,7 +7,7 @@
     [broke st] is the ghost flag of the finding class: a cut / stall / upgrade time-out that fell
     inside the commit window (after the client accepted the probe pong, before the server processed
     UPGRADE), or a timer that closes a transport which has meanwhile become current. *)
-From SioV Require Import Base.GoSem Base.Conc Eio.Upgrade Eio.UpgradeInv Eio.UpgradeProofs.
+From SioV Require Import Base.GoSem Base.Conc Eio.Upgrade Eio.UpgradeInv Eio.UpgradeProofs Eio.UpgradeProgress.
 
 (** Exactly once, for ALL schedules outside the finding class: whenever the system has come to
     rest, every message either application sent (before, during, after the upgrade; whatever was
@@ -42,6 +42,18 @@ Theorem C07_quiescent_is_terminal : forall st,
   quiescentb st = true ->
   (forall l, In l internal_fixed -> step l st = None) /\ (forall i, step (PostDeliver i) st = None).
 Proof. exact quiescent_no_internal. Qed.
+
+(** Progress: after ANY schedule (faults included) a finite sequence of internal labels brings the
+    system to rest - quiescence, the hypothesis of C07_exactly_once_partial, is always reachable;
+    every internal step decreases the measure [mu], so every maximal internal run is that short. *)
+Theorem C07_progress : forall sched0,
+  exists sched, Forall (fun l => In l internal_fixed) sched
+                /\ quiescentb (run sched (run sched0 init)) = true.
+Proof. exact progress_after_any_schedule. Qed.
+
+Theorem C07_internal_steps_bounded : forall l st st',
+  (c_cand st = KUp -> c_ws st = true) -> internal l -> step l st = Some st' -> mu st' < mu st.
+Proof. exact mu_decreases. Qed.
 
 (** Refuted at full strength: if the websocket is cut after the client accepted the probe pong
     (it has swapped and sent UPGRADE) but before the server processed the UPGRADE packet, the
